@@ -240,6 +240,12 @@ class DilationWorld:
                 cuts.add(4 + ln)
         if mode == "frames+mid" and n > 1:
             cuts.add(max(1, min(cuts) // 2))
+        if mode == "frames+edges" and n > 1:
+            # a segment boundary one byte before the end of the first wire unit, and one byte into it
+            unit = min(cuts)
+            if unit > 1:
+                cuts.add(unit - 1)
+            cuts.add(1)
         # largest first: the default schedule delivers everything that is pending, finer cuts are deviations
         return sorted(cuts, reverse=True)
 
